@@ -291,7 +291,8 @@ def write_coq_project():
 
 
 def coq_build(timeout=1500):
-    """Incremental full (.vo) build of the development under an exclusive lock."""
+    """Incremental full (.vo) build of the development under an exclusive lock
+    (`make -k`: files unrelated to a broken one are still built)."""
     COQ.mkdir(exist_ok=True)
     with open(COQ / ".lock", "w") as lk:
         fcntl.flock(lk, fcntl.LOCK_EX)
@@ -300,8 +301,46 @@ def coq_build(timeout=1500):
             rc, out, err = _run(["coq_makefile", "-f", "_CoqProject", "-o", "Makefile"], 120, cwd=COQ)
             if rc != 0:
                 return False, out + err
-        rc, out, err = _run(["timeout", str(timeout), "make", "-j16"], timeout + 30, cwd=COQ)
+        rc, out, err = _run(["timeout", str(timeout), "make", "-k", "-j16"], timeout + 30, cwd=COQ)
         return rc == 0, (out + "\n" + err)[-6000:]
+
+
+def coq_cone(prop_id: str):
+    """Source files Props/<id>.v transitively depends on (inside the development)."""
+    rc, out, err = _run(["coqdep", "-Q", "theories", "PTN"] + coq_project_files(), 120, cwd=COQ)
+    deps = {}
+    for line in out.splitlines():
+        if ":" not in line:
+            continue
+        lhs, rhs = line.split(":", 1)
+        tg = [t for t in lhs.split() if t.endswith(".vo")]
+        if not tg:
+            continue
+        src = tg[0][:-1]
+        deps[src] = [d[:-1] for d in rhs.split() if d.endswith(".vo") and d.startswith("theories/")]
+    start = f"theories/Props/{prop_id}.v"
+    seen = set()
+    todo = [start]
+    while todo:
+        f = todo.pop()
+        if f in seen:
+            continue
+        seen.add(f)
+        todo += deps.get(f, [])
+    return sorted(seen)
+
+
+def coq_cone_fresh(prop_id: str):
+    """The build is good for this property iff every file of its cone has an up-to-date .vo."""
+    stale = []
+    for f in coq_cone(prop_id):
+        v = COQ / f
+        vo = COQ / (f + "o")
+        if not v.exists():
+            stale.append(f + " (missing)")
+        elif not vo.exists() or vo.stat().st_mtime < v.stat().st_mtime:
+            stale.append(f)
+    return stale
 
 
 _HYGIENE = re.compile(r"\b(Admitted|admit|Axiom|Axioms|Parameter|Parameters|Conjecture|Conjectures|Admit Obligations|bypass_check|type-in-type|impredicative-set)\b|Unset\s+(Guard|Positivity|Universe)\s+Checking")
@@ -645,8 +684,11 @@ def run_check(prop: Prop, tier: str, seed: int, replay: str | None = None) -> in
         # 1. proofs
         with ctx.timed("coq_build"):
             ok, log = coq_build()
-        if not ok:
-            broken.append({"kind": "coq-build", "detail": log[-3000:]})
+        stale = coq_cone_fresh(prop.id)
+        if stale:
+            broken.append({"kind": "coq-build", "detail": f"not built: {stale}", "log": log[-3000:]})
+        elif not ok:
+            ctx.notes.append("make reported failures outside this property's dependency cone")
         with ctx.timed("coq_props"):
             pr = coq_check_props(ctx, prop.id)
         if not pr["ok"]:
